@@ -29,6 +29,7 @@ import props  # noqa: E402
 REPO = os.environ.get('VERIF_REPO', '/repo')
 CACHE = os.environ.get('VERIF_CACHE', '/var/tmp/kverif-cache')
 WORKROOT = os.environ.get('VERIF_WORK', '/var/tmp/kverif-work')
+OUT = os.environ.get('VERIF_OUT', VERIF)   # where evidence/ and replay/ are written (mutation runs redirect it)
 
 ENV = dict(os.environ)
 ENV['CARGO_NET_OFFLINE'] = 'true'
@@ -486,8 +487,8 @@ def main(argv):
     P = props.PROPS[prop]
     t0 = time.time()
     scratch = make_scratch(prop)
-    os.makedirs(os.path.join(VERIF, 'evidence'), exist_ok=True)
-    os.makedirs(os.path.join(VERIF, 'replay'), exist_ok=True)
+    os.makedirs(os.path.join(OUT, 'evidence'), exist_ok=True)
+    os.makedirs(os.path.join(OUT, 'replay'), exist_ok=True)
     results = {'verus': [], 'kani': []}
     undecided = []
     violations = []   # (obligation id, detail dict)
@@ -612,7 +613,7 @@ def main(argv):
             'wall_s': round(wall, 1),
             'violations': len(new_viol),
         }
-        json.dump(ev, open(os.path.join(VERIF, 'evidence', prop + '.json'), 'w'), indent=1)
+        json.dump(ev, open(os.path.join(OUT, 'evidence', prop + '.json'), 'w'), indent=1)
         for l in known_lines:
             print(l)
         print('property=%s tier=%s obligations=%d discharged=%d undecided=%d violations=%d wall=%.0fs'
@@ -684,7 +685,7 @@ def write_violation(prop, viols, scratch, tier):
             entry['note'] = 'no-failing-input-found: the verifier rejected the named obligation but produced no input that replays'
         rep['violations'].append(entry)
     name = '%s-%s.json' % (prop, hashlib.sha1(json.dumps([v[0] for v in viols]).encode()).hexdigest()[:10])
-    path = os.path.join(VERIF, 'replay', name)
+    path = os.path.join(OUT, 'replay', name)
     json.dump(rep, open(path, 'w'), indent=1)
     return path
 
